@@ -146,6 +146,7 @@ pub fn c11_case(fam: &str, idx: usize, seed: u64) -> Option<Case> {
         preset_ids: vec![],
         forget_puts: vec![],
         stall_after: vec![],
+        plant_sparse: vec![],
             };
             if burst {
                 sc.paced = false;
